@@ -1,4 +1,9 @@
 import Ledger.Driver.Core
+import Ledger.Driver.Interp
 
-/-! `ldriver_interp`: correspondence driver for the interpreter area (core-only). -/
-def main : IO Unit := Ledger.Driver.runDriver []
+/-! `ldriver_interp`: correspondence driver for the interpreter-model layer of C26 (core-only). -/
+def main : IO Unit := Ledger.Driver.runDriver [
+  ("interpmodel", Ledger.Driver.InterpH.handleInterp true),
+  ("interpedge", Ledger.Driver.InterpH.handleInterp true),
+  ("interpfuzz", Ledger.Driver.InterpH.handleInterp false)
+]
